@@ -25,19 +25,22 @@ func New[T comparable]() *Notifier[T] {
 	}
 }
 
-func (v *Notifier[T]) removeListener(value T) {
+// removeListener drops one reference to the given channel of the given value. The entry is only touched if it still
+// belongs to that channel: after a Notify the value may have been registered again by newer listeners, which must
+// neither lose their entry nor be woken up by the de-registration of an older listener.
+func (v *Notifier[T]) removeListener(value T, channel chan struct{}) {
 	v.mutex.Lock()
 	defer v.mutex.Unlock()
 
 	valueListeners, exists := v.listeners.Get(value)
-	if !exists {
+	if !exists || valueListeners.channel != channel {
 		return
 	}
 	valueListeners.count--
 
 	if valueListeners.count == 0 {
-		// No one is listening anymore, so we can close the channel and clean up
-		close(valueListeners.channel)
+		// No one is listening anymore, so we can clean up. The channel is not closed: closing it means "notified",
+		// and a listener that is waiting while it gets de-registered is woken up by its own deregisteredChan.
 		v.listeners.Delete(value)
 	}
 }
@@ -49,8 +52,10 @@ func (v *Notifier[T]) Listener(value T) *Listener {
 
 	if valueListener, exists := v.listeners.Get(value); exists {
 		valueListener.count++
-		return newListener(valueListener.channel, func() {
-			v.removeListener(value)
+		channel := valueListener.channel
+
+		return newListener(channel, func() {
+			v.removeListener(value, channel)
 		})
 	}
 
@@ -58,7 +63,7 @@ func (v *Notifier[T]) Listener(value T) *Listener {
 	v.listeners.Set(value, &listener{msgProcessedChan, 1})
 
 	return newListener(msgProcessedChan, func() {
-		v.removeListener(value)
+		v.removeListener(value, msgProcessedChan)
 	})
 }
 
